@@ -147,10 +147,13 @@ SPELLED_OBJS = [('@BUILD@/c10_spelled_%d.c' % k, [], '@BUILD@/c10_spelled_%d_emp
                  'the static twins whose base_len argument is spelled with "%s"' % bl_forms(1, 1, 0, set())[k][0])
                 for k in range(N_UNITS)]
 
+# on an oversubscribed machine the global deadline can be stretched: VERIF_DEADLINE_SCALE=4 bin/check C10
+_SCALE = float(os.environ.get('VERIF_DEADLINE_SCALE', '1') or 1)
+
 CHECK = dict(
     level='model_checking',
     parts=[dict(name='c10', src=['harness/c10_messageq.c'], lib=['messageq.c'], objs=SPELLED_OBJS, workers=16, prebuild=_gen,
-                deadline=dict(quick=600, thorough=3000))],
+                deadline=dict(quick=600 * _SCALE, thorough=3000 * _SCALE))],
     rule='four families, all driving the real messageq.c (linked as an object of its own; the harness sees the public header '
          'only) sequentially and all judged by one oracle: a per-slot status model (free/claimed/sent/held, three cyclic '
          'cursors; the first buffer a fresh queue hands out fixes where the cycle starts) against every returned pointer, NULL, '
@@ -178,12 +181,12 @@ CHECK = dict(
                       '10000,24000,40000,50000,65534}; slack 0 and msg_len-1',
                 thorough='(A) all 32 depths x msg_len {1,2,3,4,7,8,12} x slack {0,1,msg_len-1} + the 16 large geometries; depth<=7: complete '
                          'reachable space; depth 8..16: at most 4 claimed-unsent; depth>=17: at most 3 claimed-unsent and 5 held. (B) as quick. '
-                         '(C) as quick, and for depths 3 and 31 on to N in {2^31-2..2^31+1, 2^32-2..2^32+1} (4.3e9 real cycles each). (D) every '
+                         '(C) as quick, and for depth 3 on to N in {2^31-2..2^31+1, 2^32-2..2^32+1} (4.3e9 real cycles, every one compared). (D) every '
                          'msg_len 1..65535 at every depth 1..32, slack 0 and msg_len-1'),
     assumptions=['sequential use only (concurrency is C04)', 'releases follow receives in order (API rule)',
                  'for depth>5 the number of claimed-but-unsent (and for depth>12 held) messages in the BFS is bounded as stated',
                  'message sizes up to 65535 (the width of the descriptor field today)',
-                 'counters wider than 32 bits cannot be driven to their wrap by real calls; a 2^32 wrap only in the thorough tier',
+                 'counters wider than 32 bits cannot be driven to their wrap by real calls; a 2^32 wrap only in the thorough tier and at depth 3',
                  'where the cycle of buffers starts on a fresh queue is not judged; two constructors "describe the same queue" when both '
                  'conform to the same model from their first operation on (raw state-graph sizes are reported, not judged)'],
     technique='explicit-state model checking: BFS to a fixpoint per queue geometry over the real messageq.c against a slot-status model, '
@@ -193,7 +196,7 @@ CHECK = dict(
                'NULL and messageq_empty answer compared with a bounded-FIFO model; the static initialiser is instantiated with '
                'literal and expression arguments of every operator class and compared with messageq_init for every geometry; '
                'every message size 1..65535 is swept with a fixed wrap-crossing history; cursor counters are driven by real calls '
-               'across 2^8 and 2^16 (2^31, 2^32 in the thorough tier). For depth > 5 the fixpoint is under a stated bound on '
+               'across 2^8 and 2^16 at every depth (2^31 and 2^32 at depth 3 in the thorough tier). For depth > 5 the fixpoint is under a stated bound on '
                'outstanding unsent/held messages.',
     level_note='Trusted: the slot-status model. Depth > 5 restricted to <=3 (<=2 beyond 12) claimed-unsent messages in the BFS.',
     design_ref='DESIGN.md section 4, C10',
